@@ -13,7 +13,7 @@ from ._pairs import V
 
 PID = "C17"
 LEVEL = "model_checking"
-WITNESSES = ["ks_strictly_between_0_and_1", "ks_full_stress", "cold_coefficient_partial", "heat_coefficient_zero", "gdd_clipped_low", "gdd_clipped_high",
+WITNESSES = ["ks_strictly_between_0_and_1", "ks_full_stress", "et0_adjustment_switched_off", "cold_coefficient_partial", "heat_coefficient_zero", "gdd_clipped_low", "gdd_clipped_high",
              "growth_curve_decay_stage", "decline_curve_reaches_zero", "inverse_checked", "fco2_above_1", "fco2_below_1", "fco2_season_reset_site", "fco2_overridden_sink_strength", "aeration_stress_active", "aeration_switched_off_crop", "growth_curve_starts_in_decay_stage", "fco2_overridden_water_productivity"]
 NONTRIVIAL = WITNESSES
 TOL = 1e-12
@@ -53,25 +53,47 @@ def run(scn):
     if fam == "water_stress":
         taw = 150.0
         deps = np.arange(-20.0, 120.0 + 1e-9, 2.5 if fine else 5.0) / 100.0 * taw
-        for et0, tes, beta in itertools.product([0.1, 1, 3, 5, 8, 12, 20], [0, 5], [True, False]):
-            prev = None
-            for dr in deps:
-                ks = water_stress(crop.p_up, crop.p_lo, crop.ETadj, crop.beta, crop.fshape_w, tes, dr, taw, et0, beta)
-                ks = [float(x) for x in ks]
-                nodes += 1
-                for i, k in enumerate(ks):
-                    if not (-TOL <= k <= 1 + TOL) or k != k:
-                        bad("water-stress-in-0-1", {"coef": i, "value": k, "Dr/TAW": dr / taw, "et0": et0}, "[0,1]")
-                if prev is not None:
+        # ETadj (the ET0 adjustment switch) is an argument too: the crop's own value and both settings of the switch
+        p_up0, p_lo0, fsh0 = [np.array(x, dtype=float).copy() for x in (crop.p_up, crop.p_lo, crop.fshape_w)]
+        for etadj, et0, tes, beta in itertools.product(sorted({int(crop.ETadj), 0, 1}), [0.1, 1, 3, 5, 8, 12, 20], [0, 5], [True, False]):
+            # the lattice is visited in three orders (ascending, descending, even positions up then odd positions down): the coefficient of
+            # an argument tuple may not depend on the calls made before it
+            n = len(deps)
+            orders = {"ascending": list(range(n)), "descending": list(range(n - 1, -1, -1)), "interleaved": list(range(0, n, 2)) + list(range(n - 1 - (n % 2 == 1), 0, -2))}
+            maps = {}
+            for oname, order in orders.items():
+                vals = {}
+                for j in order:
+                    dr = deps[j]
+                    ks = water_stress(crop.p_up, crop.p_lo, etadj, crop.beta, crop.fshape_w, tes, dr, taw, et0, beta)
+                    ks = [float(x) for x in ks]
+                    vals[j] = ks
+                    nodes += 1
+                    for i, k in enumerate(ks):
+                        if not (-TOL <= k <= 1 + TOL) or k != k:
+                            bad("water-stress-in-0-1", {"coef": i, "value": k, "Dr/TAW": dr / taw, "et0": et0, "ETadj": etadj}, "[0,1]")
+                    if any(0 < k < 1 for k in ks):
+                        hit("ks_strictly_between_0_and_1")
+                    if min(ks) <= 0:
+                        hit("ks_full_stress")
+                maps[oname] = vals
+                for j in range(1, n):
                     edges += 1
-                    for i, (a, b) in enumerate(zip(prev, ks)):
+                    for i, (a, b) in enumerate(zip(vals[j - 1], vals[j])):
                         if b > a + TOL:
-                            bad("water-stress-non-increasing-in-depletion", {"coef": i, "at": dr / taw, "value": b, "previous": a, "et0": et0, "tEarlySen": tes, "beta": beta}, "non-increasing")
-                prev = ks
-                if any(0 < k < 1 for k in ks):
-                    hit("ks_strictly_between_0_and_1")
-                if min(ks) <= 0:
-                    hit("ks_full_stress")
+                            bad("water-stress-non-increasing-in-depletion", {"coef": i, "at": deps[j] / taw, "value": b, "previous": a, "et0": et0, "tEarlySen": tes, "beta": beta, "ETadj": etadj, "visiting_order": oname}, "non-increasing")
+            for oname in ("descending", "interleaved"):
+                for j in range(n):
+                    if maps[oname][j] != maps["ascending"][j]:
+                        bad("water-stress-is-a-function-of-its-arguments", {"Dr/TAW": deps[j] / taw, "ascending_visit": maps["ascending"][j], oname + "_visit": maps[oname][j], "et0": et0, "tEarlySen": tes, "beta": beta, "ETadj": etadj},
+                            "the same arguments give the same coefficients whatever was evaluated before")
+                        break
+            if etadj == 0:
+                hit("et0_adjustment_switched_off")
+            if not (np.array_equal(p_up0, np.array(crop.p_up, dtype=float)) and np.array_equal(p_lo0, np.array(crop.p_lo, dtype=float)) and np.array_equal(fsh0, np.array(crop.fshape_w, dtype=float))):
+                bad("water-stress-is-a-function-of-its-arguments", {"crop_thresholds_after_the_calls": [float(x) for x in crop.p_up], "configured": [float(x) for x in p_up0], "et0": et0, "tEarlySen": tes, "beta": beta, "ETadj": etadj},
+                    "the crop's threshold arrays are inputs and stay as configured")
+                crop.p_up, crop.p_lo, crop.fshape_w = p_up0.copy(), p_lo0.copy(), fsh0.copy()
     elif fam == "aeration":
         # the water-logging member of the water-stress coefficients (bounds only; the statement's monotonicity clause is about depletion)
         import collections
@@ -253,7 +275,7 @@ def describe(tier):
     fine = tier != "quick"
     return {
         "rule": "for each of the 37 catalogue crops the real functions are called on a lattice: water_stress (depletion -20..120 % of TAW step " + ("2.5" if fine else "5") + " x ET0 {0.1,1,3,5,8,12,20} x "
-                "early-senescence days {0,5} x beta {T,F}); temperature_stress (-30..60 C step " + ("0.5" if fine else "1") + "); growing_degree_day (methods 1-3 x Tmin,Tmax grid step "
+                "early-senescence days {0,5} x beta {T,F} x ET0-adjustment switch {0,1}; every lattice visited ascending, descending and interleaved, the three visits must agree and leave the crop's threshold arrays untouched); temperature_stress (-30..60 C step " + ("0.5" if fine else "1") + "); growing_degree_day (methods 1-3 x Tmin,Tmax grid step "
                 + ("1.5" if fine else "3") + ", Tmax>=Tmin); cc_development growth/decline (" + ("200" if fine else "100") + " time points over twice the cycle x CCx,CGC,CDC of the crop and +-50 %); "
                 "cc_required_time o cc_development; fCO2 at BOTH sites that compute it (compute_variables for the first season, reset_initial_conditions for later seasons, called on a really initialised model) for 23" + ("+24" if fine else "") + " concentrations 250..2500 ppm (dense around 369.41, 550 and 2000) x sink strength {crop default, 1.0" + (", 0, 0.2, 0.8" if fine else "") + "}. Nodes = points "
                 "(range invariants), edges = neighbouring points along one axis (monotonicity).",
